@@ -1019,6 +1019,25 @@ pub fn cases(r: &mut Rng, thorough: bool, out: &mut Vec<Case>) {
         }
         out.push(c);
     }
+    // CPU feature flags (AVX2 / SSE4.2 switched off in the configuration) x the code they select: the funnel merge and its
+    // copy back above 256 elements, the L1 insertion sorts around 8 / 16 / 64 elements
+    for flags in 0..4u64 {
+        for (i, &n) in [257usize, 300, 700, 3_000].iter().enumerate() {
+            let cell = ["co/i64", "co/u16", "co/rev", "co/pair"][(i + flags as usize) % 4];
+            let mut c = Case::new(cell, &[64, *r.pick(&[1024u64, 262144]), 8 << 20, *r.pick(&[2u64, 16]), r.below(2), 64, flags, 0, 0, 1, (i % 2) as u64]);
+            c.xs = gen_ints(r, n, if cell == "co/u16" { 16 } else { 64 });
+            out.push(c);
+        }
+        for &n in &[7usize, 8, 15, 16, 64, 65, 100] {
+            for simd in 0..2u64 {
+                if !thorough && (n as u64 + simd + flags) % 2 == 1 { continue; }
+                let cell = if n % 2 == 0 { "co/i64" } else { "co/u16" };
+                let mut c = Case::new(cell, &[8 * n as u64 + 8, 262144, 8 << 20, 0, simd, 64, flags, 0, 0, 1, 0]);
+                c.xs = gen_ints(r, n, if cell == "co/u16" { 16 } else { 64 });
+                out.push(c);
+            }
+        }
+    }
     // small_threshold (1024 by default) and the funnel width cap of 64
     for &n in &[1_023u64, 1_024, 1_025, 1_026, 2_049] {
         out.push(Case::big("co/oblivious", &[32768, 262144, 8 << 20, 1024, 1, 64], &[0, n, seed + 80 + n, 64]));
@@ -1058,15 +1077,26 @@ pub fn cases(r: &mut Rng, thorough: bool, out: &mut Vec<Case>) {
     if thorough { out.push(Case::big("ext/sort", &[64 * 1024, 16, 0], &[0, 1 << 20, seed + 105, 64])); }
 
     // ---- MultiWayMerge: custom sources, partly read sources, the same merger twice; tagged two-way merges ----
-    for k in 0..(36 * scale) {
-        let nk = *r.pick(&[0usize, 1, 2, 3, 8, 9, 10, 17]);
-        let mut c = Case::new("mwm/src", &[r.below(2), *r.pick(&[0u64, 1, 2, 9, 1024]), (k % 3) as u64, r.below(3), r.below(2), *r.pick(&[0u64, 1, 64 * 1024]), (k % 4 == 0) as u64]);
-        c.runs = gen_runs(r, nk, 6, 64);
-        out.push(c);
-        if k % 3 == 0 {
-            let mut c = Case::new("mwm/str", &[r.below(2), *r.pick(&[2u64, 1024])]);
-            c.runs = gen_runs(r, nk, 5, 64);
-            out.push(c);
+    // the whole grid: merge mode x fan-in limit x number of sources x (custom sources | partly read VectorSources)
+    let mut k = 0u64;
+    for rep in 0..scale {
+        for tt in 0..2u64 {
+            for &mw in &[0u64, 1, 2, 9, 1024] {
+                for &nk in &[0usize, 1, 2, 3, 8, 9, 10, 17] {
+                    for custom in 0..2u64 {
+                        if rep > 0 && r.chance(1, 2) { continue; }
+                        k += 1;
+                        let mut c = Case::new("mwm/src", &[tt, mw, k % 3, r.below(3), r.below(2), *r.pick(&[0u64, 1, 64 * 1024]), custom]);
+                        c.runs = gen_runs(r, nk, 6, 64);
+                        out.push(c);
+                        if k % 8 == 0 {
+                            let mut c = Case::new("mwm/str", &[tt, mw]);
+                            c.runs = gen_runs(r, nk, 5, 64);
+                            out.push(c);
+                        }
+                    }
+                }
+            }
         }
     }
     for _ in 0..(25 * scale) {
